@@ -37,6 +37,7 @@ type killG struct{}
 type targetPanic struct {
 	v     value
 	where string
+	fn    string
 }
 
 type Violation struct {
@@ -129,6 +130,7 @@ type Machine struct {
 	timers    []*chanV
 	ptrIDs    map[*value]int
 	inInit    int
+	siteFn    string
 	resetEvery int
 	needFP    bool
 	mapOrderNondet bool
@@ -154,7 +156,7 @@ func (m *Machine) outside(format string, args ...interface{}) {
 }
 
 func (m *Machine) targetPanic(msg string) {
-	panic(targetPanic{v: ifaceV{t: m.runtimeErrorType(), v: mkStr(msg)}, where: m.where()})
+	panic(targetPanic{v: ifaceV{t: m.runtimeErrorType(), v: mkStr(msg)}, where: m.where(), fn: m.curFn()})
 }
 
 var rtErrType types.Type
@@ -284,16 +286,34 @@ func (m *Machine) concretize(t *Term, what string, capN int, signed bool, onResi
 		probeN := capN
 		small := tCmp("bvult", t, mkConst(t.W, uint64(probeN)))
 		if r := m.check(small); r == Sat {
-			for k := 0; k < probeN && len(d.alts) < capN; k++ {
-				eq := tEq(t, mkConst(t.W, uint64(k)))
-				r := m.check(eq)
+			// recursive range splitting: whole infeasible ranges cost one query
+			var probe func(a, b uint64)
+			probe = func(a, b uint64) {
+				if len(d.alts) >= capN {
+					return
+				}
+				var in *Term
+				if a == b {
+					in = tEq(t, mkConst(t.W, a))
+				} else {
+					in = tAnd(tCmp("bvuge", t, mkConst(t.W, a)), tCmp("bvule", t, mkConst(t.W, b)))
+				}
+				r := m.check(in)
 				if r == Unknown {
 					m.abort("solver unknown while enumerating %s", what)
 				}
-				if r == Sat {
-					d.alts = append(d.alts, uint64(k))
+				if r == Unsat {
+					return
 				}
+				if a == b {
+					d.alts = append(d.alts, a)
+					return
+				}
+				mid := a + (b-a)/2
+				probe(a, mid)
+				probe(mid+1, b)
 			}
+			probe(0, uint64(probeN-1))
 			excl = append(excl, tNot(small))
 		} else if r == Unknown {
 			m.abort("solver unknown while enumerating %s", what)
@@ -489,6 +509,14 @@ func (m *Machine) assert(c *Term, label string) {
 
 // recordViolation extracts a model for the current solver state (last check was Sat).
 func (m *Machine) recordViolation(kind, label, detail string, extra map[string]string) {
+	if kind != "assert" {
+		// engine-detected outcomes are keyed by the function they occur in (stable across line edits)
+		fn := m.curFn()
+		if m.siteFn != "" {
+			fn = m.siteFn
+		}
+		label = label + "@" + shortFn(fn)
+	}
 	ins, _, err := m.modelInputs()
 	if err != nil {
 		m.abort("model extraction failed for violation %q: %v", label, err)
@@ -746,6 +774,8 @@ func (m *Machine) gMain(g *G, body func(), isMain bool) {
 						}
 						m.done <- &abortPath{kind: "violation-stop", reason: "uncaught panic: " + msg}
 					}()
+					m.siteFn = r.fn
+					defer func() { m.siteFn = "" }()
 					m.violationNow("panic", "no-panic", "uncaught panic in goroutine "+g.name+": "+msg+" at "+r.where, map[string]string{"panic": msg, "where": r.where})
 				}()
 			} else {
@@ -790,4 +820,31 @@ func sortedCounts(m map[string]int) []string {
 		out = append(out, fmt.Sprintf("%s ×%d", k, m[k]))
 	}
 	return out
+}
+
+func shortFn(f string) string {
+	f = strings.ReplaceAll(f, "github.com/lugu/qiloop/", "")
+	return f
+}
+
+// maximizeInputs greedily drives the symbolic inputs towards all-ones (little-endian counts become
+// huge) while keeping pc ∧ extra satisfiable, so that a resource finding replays as an actual
+// blow-up natively. Leaves the solver in a Sat state for model extraction; returns the literals used.
+func (m *Machine) maximizeInputs(extra []*Term) []*Term {
+	lits := append([]*Term(nil), extra...)
+	for i := len(m.inputs) - 1; i >= 0; i-- {
+		t := m.inputs[i]
+		for _, cand := range []uint64{mask(t.W), mask(t.W) >> 1} {
+			try := append(append([]*Term(nil), lits...), tEq(t, mkConst(t.W, cand)))
+			if m.check(try...) == Sat {
+				lits = try
+				break
+			}
+		}
+	}
+	if m.check(lits...) != Sat {
+		m.check(extra...)
+		return extra
+	}
+	return lits
 }
